@@ -196,6 +196,8 @@ theorem drainLoop_abs (u : List Nat) (w : Nat) : ∀ (q : List Entry) (c : Core)
     intro c fl
     unfold drainLoop
     split
+    · exact ⟨rfl, AStep.refl _⟩
+    split
     · have := ih (c.emit (.qdrop e.sid c.now .expired)) fl
       refine ⟨this.1, ?_⟩
       have h1 : AStep ⟨u, c.now, e :: rest, c.trace, fl⟩ ⟨u, c.now, rest, c.trace, fl⟩ :=
